@@ -36,10 +36,6 @@ def run_task(prog, tid, params, tier):
         I.ctx.assume(z3.ULT(pos0.z(), L))
         cell = Cell(pos0, 'pos')
         I.poscell = cell
-        # Name::parse may legally re-read labels through a backwards pointer cycle until its 255-octet budget is used up
-        # (<= 128 label steps + pointer hops between them); its termination is decided by C01.name.step / C01.name.run
-        for fn_ in name_parse_fns:
-            I.loop_bound_for[fn_] = 300
         return I.call_function(f, [buf, Ref(cell)], {})
 
     def on_path(res):
@@ -50,7 +46,9 @@ def run_task(prog, tid, params, tier):
             return {'status': 'violation', 'role': 'panic', 'detail': '%s::parse panics: %s' % (t, res.msg),
                     'cex': {'entry': 'rdata_parse', 'type': t, 'bytes': bs, 'pos': p, 'expect': {'outcome': 'panic'}}}
         if res.kind == 'bound' and res.interp.bound_fn in name_parse_fns:
-            stats['truncated'] = 'Name::parse loop bound'
+            # Name::parse may legally re-read labels through a backwards pointer cycle until its 255-octet budget is used up;
+            # its termination and panic-freedom for any iteration count are decided by C01.name.step / C01.name.run
+            covers['name_cycles'] = covers.get('name_cycles', 0) + 1
             return None
         if res.kind == 'bound':
             # every iteration of these loops consumes at least one byte of the <= L-byte RDATA on a terminating run, and
@@ -77,7 +75,9 @@ def run_task(prog, tid, params, tier):
     v = X.explore(prog, run, on_path, loop_bound=N, stats=stats, timeout_ms=60000)
     out = {'paths': stats.get('paths', 0), 'queries': stats.get('queries', 0), 'solver_s': stats.get('solver_s', 0.0),
            'outcomes': stats.get('outcomes', {}), 'functions': stats.get('functions', set()), 'covers': covers,
-           'covers_witnessed': sum(1 for c in covers.values() if c)}
+           'covers_witnessed': sum(1 for k_, c in covers.items() if c and k_ != 'name_cycles'),
+           'bound_ok': 'paths cut inside Name::parse (pointer cycles longer than the loop bound) are left to C01.name.step; a cut in any '
+                       'other loop is reported as a hang candidate'}
     if v is not None:
         out.update(v)
     elif 'truncated' in stats:
